@@ -238,4 +238,55 @@ ModelVerdictT(n, t, pos, off, P, q) ==
   IF Accepts(vals) THEN (IF off /\ pos \in 1..n THEN "undetectable" ELSE "accept") ELSE "detect"
 \* coefficients of the fixed polynomial used for the verdict, for any t (wraps around the handed-in coefficients)
 VerdictPoly(coeffs, t, q) == [i \in 1..t |-> (coeffs[((i - 1) % Len(coeffs)) + 1] % (q - 1)) + 1]
+
+-----------------------------------------------------------------------------
+\* SEQUENCES of key generations on the same instances (Init + KeyGen again, e.g. to replace the key of a committee, possibly
+\* with another committee size).  Init starts a new key generation: everything an instance outputs in run k -- verdict of the
+\* cross-check, threshold key -- is a function of the keys announced in run k only.
+\*
+\* A run is described by [n, t, pos, off] (pos = 0: all parties real; otherwise the party at that position is played by the
+\* harness, off: it announces a key off the polynomial); RunKeys gives the keys announced in run k of a plan (every run has its
+\* own polynomial: fresh randomness).
+Run(n, t, pos, off) == [n |-> n, t |-> t, pos |-> pos, off |-> off]
+
+\* the demanded plan for committee (n, t), t < n, and a second committee size (m, u): honest, honest again, a key off the
+\* polynomial at EVERY position, honest, the other committee honest and with a deviating last party, back to (n, t) with a
+\* harness party on the polynomial, a deviating first party, the undetectable t = n case, and a final honest run
+RunPlan(n, t, m, u) ==
+  <<Run(n, t, 0, FALSE), Run(n, t, 0, FALSE)>> \o [p \in 1..n |-> Run(n, t, p, TRUE)] \o
+  <<Run(n, t, 0, FALSE), Run(m, u, 0, FALSE), Run(m, u, m, TRUE), Run(n, t, 1, FALSE), Run(n, t, 1, TRUE), Run(n, n, n, TRUE),
+    Run(n, t, 0, FALSE)>>
+
+RunKeys(run, k, coeffs, q) ==
+  LET P    == [i \in 1..run.t |-> (coeffs[((i + k - 1) % Len(coeffs)) + 1] % (q - 1)) + 1]      \* another polynomial in every run
+      keys == Deal(P, run.n, q) IN
+  IF run.off /\ run.pos \in 1..run.n THEN Bump(keys, run.pos, 1, q) ELSE keys
+
+\* what an instance outputs for the announced keys: the verdict of the cross-check and, if it accepts, the threshold key
+Output(keys, run, q) ==
+  LET vals == CrossValues(keys, run.n, run.t, q) IN
+  IF Accepts(vals) THEN [verdict |-> IF run.off /\ run.pos \in 1..run.n THEN "undetectable" ELSE "accept", tpk |-> CHOOSE v \in vals : TRUE]
+  ELSE [verdict |-> "detect", tpk |-> 0 - 1]
+
+\* the instance as a state machine over the runs.  Its only state across runs is `cache` (the parsed announced keys an
+\* implementation may keep); `reset` = Init clears it (the specified behaviour).  reset = FALSE is the MUST-FAIL variant "cache
+\* from an earlier run": the cache is kept as long as the number of parties does not change.
+RECURSIVE InstanceFrom(_, _, _, _, _, _)
+InstanceFrom(plan, k, cache, coeffs, q, reset) ==
+  IF k > Len(plan) THEN <<>>
+  ELSE LET announced == RunKeys(plan[k], k, coeffs, q)
+           used      == IF reset \/ Len(cache) # plan[k].n THEN announced ELSE cache IN
+       <<Output(used, plan[k], q)>> \o InstanceFrom(plan, k + 1, used, coeffs, q, reset)
+Instance(plan, coeffs, q, reset) == InstanceFrom(plan, 1, <<>>, coeffs, q, reset)
+
+\* the law: run k's output is a function of run k's keys only
+RunsLaw(plan, coeffs, q) == Instance(plan, coeffs, q, TRUE) = [k \in DOMAIN plan |-> Output(RunKeys(plan[k], k, coeffs, q), plan[k], q)]
+\* the demanded plan tells the must-fail variant apart: with a stale cache some deviating run that must be detected is accepted
+\* AND some honest run outputs a threshold key that is not the one of its own keys
+StaleCacheShows(plan, coeffs, q) ==
+  LET good == Instance(plan, coeffs, q, TRUE)
+      bad  == Instance(plan, coeffs, q, FALSE) IN
+  /\ \E k \in DOMAIN plan : good[k].verdict = "detect" /\ bad[k].verdict # "detect"
+  /\ \E k \in DOMAIN plan : good[k].verdict = "accept" /\ bad[k].verdict = "accept" /\ bad[k].tpk # good[k].tpk
+ExpectedVerdicts(plan, coeffs, q) == LET o == Instance(plan, coeffs, q, TRUE) IN [k \in DOMAIN plan |-> o[k].verdict]
 =============================================================================
